@@ -115,7 +115,7 @@ DEAD_PROBES = [("req", AL, SC, "password", "plain", "S"), ("iresp", "S"),
 def depth_for(tier, cfg):
     if tier == "quick":
         return {"shipped": 2, "gss-bound": 4, "gss-off": 2}[cfg]
-    return {"shipped": 14, "gss-bound": 14, "gss-off": 3}[cfg]
+    return {"shipped": 14, "gss-bound": 14, "gss-off": 14}[cfg]
 
 
 # canon: merged states have equal futures because the server-side handlers branch only on these
